@@ -485,9 +485,15 @@ def concrete(rp):
   k = n - pad
   rng = np.random.RandomState(0)
   for trial in range(6):
-    G = rng.randn(k, k + 1)
-    S = np.zeros((n, n))
-    S[:k, :k] = G @ G.T * 10.0 ** rng.randint(-2, 3)
+    if trial % 2 == 1 and k >= 2:
+      # rank-deficient statistic (rank 1, unit scale): the null space sits exactly at the ridge
+      G = rng.randn(k, 1)
+      S = np.zeros((n, n))
+      S[:k, :k] = G @ G.T
+    else:
+      G = rng.randn(k, k + 1)
+      S = np.zeros((n, n))
+      S[:k, :k] = G @ G.T * 10.0 ** rng.randint(-2, 3)
     eigh = ob.startswith('S3')
     if ob == 'S4':
       v, s = ds.power_iteration(jnp.asarray(S, jnp.float32), padding_start=k)
